@@ -9,6 +9,22 @@ CHECKS = {
    ref='4 (C06)',
    note='trusted: simulator fakes for pubsub/registry/threads (FIFO per link, copies on send); tmgr components and agents are replaced by the driver',
    technique='deterministic simulation: seeded notification histories + schedule search, reference-model refinement oracle'),
+
+ 'C13': dict(
+   text='seeded search over pilot crash points: 2-3 real Pilot objects and 2-8 real Task objects (early bound, late bound, unbound, final) moved by a notification driver; pilots end in every final state, order and position, with and without a sync point before the death; oracle = reference model of binding + pilot death vs. Task.state/exception at quiescence. Sampling, not proof.',
+   ref='4 (C13)',
+   note='trusted: simulator fakes; tasks with a notification in flight during an unsynced pilot death are excluded from the oracle',
+   technique='deterministic simulation: crash-point sweep of pilot final states over seeded task/pilot histories, reference-model oracle'),
+ 'C14': dict(
+   text='(a) seeded pilot notification histories (dup, reorder, gaps, late non-final, contradictory finals, unknown pilots, several pilots per bulk) against the real PilotManager/Pilot with a reference linear model; (b) the real Agent_0 start/work-loop/_check_lifetime/stop/_ctrl_cancel_pilots/finalize under the virtual clock with seeded termination causes (runtime reached, cancel naming it or not, terminate, crash, clock jumps): killme.signal and published final state vs. cause. Sampling, not proof.',
+   ref='4 (C14)',
+   note='trusted: simulator fakes; Agent_0 is built without its constructor (no RM, sub-agents, services); bootstrap_0.sh is not executed; causes closer than 12 virtual seconds accept either state',
+   technique='deterministic simulation: seeded notification histories + termination-cause injection under a virtual clock, reference-model oracle'),
+ 'C15': dict(
+   text='seeded search over wait calls: Task.wait, TaskManager.wait_tasks, Pilot.wait, PilotManager.wait_pilots with seeded (uids, state none/one/several/final, timeout) run in application threads under the virtual clock while a driver moves real Task/Pilot objects along seeded timed trajectories; oracle = bounded return time after the awaited state is reached / entity final / timeout, no early return, returned states = actual states, bounded liveness (60 virtual seconds). Sampling, not proof.',
+   ref='4 (C15)',
+   note='trusted: simulator fakes and virtual clock; eps = 0.45 virtual seconds; "reached" = at or beyond the earliest requested state or final',
+   technique='deterministic simulation: virtual-clock trajectories + concurrent wait calls, timing oracle with bounded liveness'),
 }
 
 NA = [
